@@ -96,6 +96,9 @@ diffs)  # the recorded patches selftest/C17/*.diff (deep chains, type-level Init
       attr-inithash-drops-any-undef|type-inithash-drops-include-type) pat='reinit-differs' ;;
       isassignable-two-levels) pat='subtype-not-instance' ;;
       equality-attributes-one-level-up) pat='equality-wrong|equality-include-type' ;;
+      sweep-collectfunctions-no-parent) pat='ifacex-instance' ;;
+      sweep-function-assertoverride-deleted) pat='fnover-accepted' ;;
+      sweep-objectid-constant) pat='type-hash-key' ;;
       *) pat='' ;;
     esac
     run "mutant $(basename "$d" .diff)" 1 "$pat"
